@@ -321,6 +321,9 @@ def minimise(doc, inv, mod, deadline):
     for key in ('faults', 'ops'):
         i = 0
         while i < len(best.get(key) or []) and time.time() < deadline:
+            if best[key][i].get('keep'):
+                i += 1
+                continue
             cand = copy.deepcopy(best)
             del cand[key][i]
             if still_fails(cand, inv, mod) is not None:
